@@ -21,6 +21,7 @@ type Variant struct {
 	Old, New string // Old must occur exactly once in the current file, else the variant is stale
 	Edits    []Edit // further edits (other files or other places)
 	Patch    string // alternatively: a unified diff under /verif (seeded change), applied in memory
+	Transform string // alternatively: a behaviour-preserving AST rewrite of every library file (transforms.go)
 	Breaking bool
 	Expect   string // substring expected in the reported construct key (breaking only)
 	Note     string
@@ -60,6 +61,9 @@ func findVariant(name string) *Variant {
 }
 
 func (v *Variant) overlay(dir string) (map[string][]byte, bool) {
+	if v.Transform != "" {
+		return transformOverlay(dir, v.Transform)
+	}
 	if v.Patch != "" {
 		b, err := os.ReadFile(filepath.Join(verifDir(), v.Patch))
 		if err != nil {
